@@ -127,6 +127,12 @@ def readerStep (cfg : Cfg) (m : RawMap RK RV) (ws : List String) : Option String
   | ["itemsfrom", start, e] => match parseKey start, parseBound e with
     | some s, some e => some (fmtRes (fmtList fmtKV) (m.itemsFromKey cfg s e))
     | _, _ => none
+  | ["rangefrom", leaf, idx, skip, e] => match leaf.toNat?, idx.toNat?, parseBound e with
+    | some l, some i, some e => some (fmtRes (fmtList fmtKV) (m.rangeFrom cfg (some (l, i)) (skip == "1") e))
+    | _, _, _ => none
+  | ["iterfrom", leaf, idx, _, e] => match leaf.toNat?, idx.toNat?, parseBound e with
+    | some l, some i, some e => some (fmtRes (fmtList fmtKV) (m.itemsFromPos cfg l i e))
+    | _, _, _ => none
   | ["partial", n, extra] => match n.toNat?, extra.toNat? with
     | some n, some extra =>
       (match m.itemsStart with
